@@ -1,65 +1,795 @@
 package main
 
 import (
+	"bufio"
 	"context"
+	"encoding/json"
 	"fmt"
+	"go/types"
+	"io"
 	"os"
+	"os/exec"
 	"path/filepath"
+	"strconv"
 	"strings"
+	"time"
+
+	"golang.org/x/tools/go/ssa"
 )
+
+// Replay of counterexamples on the real code (DESIGN §2.10).
+//
+// A sat answer is turned into concrete Go arguments (read from the solver's model in one
+// interactive session), the real function is called from an in-package test injected with
+// `go test -overlay` (nothing is written under /repo), and
+//   - for safety obligations the recovered panic is the confirmation;
+//   - for postconditions the observed results are substituted back and the violated clause is
+//     evaluated by a ground SMT query (the contract has one semantics, the solver's).
 
 type replayResult struct {
 	text       string
 	reproduced bool
 }
 
-// modelOf re-runs a sat query asking for the values of the function's parameters.
-func (e *Engine) modelOf(o *Oblig) (map[string]string, string) {
-	c := o.ctx
-	q := c.queryText(o, true)
-	var names []string
-	for _, p := range c.fn.Params {
-		if t, ok := c.vals[p]; ok {
-			names = append(names, t)
+// ---------- interactive solver session ----------
+
+type smtSession struct {
+	cmd *exec.Cmd
+	in  io.WriteCloser
+	out *bufio.Reader
+}
+
+func startSession(query string) (*smtSession, string, error) {
+	cmd := exec.Command("z3-new", "-in", "-T:20")
+	in, _ := cmd.StdinPipe()
+	outp, _ := cmd.StdoutPipe()
+	cmd.Stderr = cmd.Stdout
+	if err := cmd.Start(); err != nil {
+		return nil, "", err
+	}
+	s := &smtSession{cmd: cmd, in: in, out: bufio.NewReader(outp)}
+	// the query ends with (check-sat)
+	io.WriteString(in, query)
+	line, err := s.readExpr()
+	return s, strings.TrimSpace(line), err
+}
+
+// readExpr reads one balanced s-expression (or an atom line).
+func (s *smtSession) readExpr() (string, error) {
+	var sb strings.Builder
+	depth := 0
+	started := false
+	for {
+		ch, err := s.out.ReadByte()
+		if err != nil {
+			return sb.String(), err
 		}
-	}
-	if len(names) > 0 {
-		q += "(get-value (" + strings.Join(names, " ") + "))\n"
-	}
-	file := filepath.Join(getWorkDir(), "model_"+fileSafe.ReplaceAllString(o.Name, "_")+".smt2")
-	os.WriteFile(file, []byte(q), 0o644)
-	defer os.Remove(file)
-	r := runSolver(context.Background(), "z3-new", file, 10000, 1)
-	if r.status != "sat" {
-		return nil, r.output
-	}
-	vals := map[string]string{}
-	rest := strings.SplitN(r.output, "\n", 2)
-	if len(rest) == 2 {
-		txt := strings.TrimSpace(rest[1])
-		if h, args, ok := splitTop(txt); ok {
-			items := append([]string{h}, args...)
-			for _, it := range items {
-				if k, v, ok := splitTop(it); ok && len(v) == 1 {
-					vals[k] = v[0]
-				}
+		if !started {
+			if ch == ' ' || ch == '\n' || ch == '\t' {
+				continue
+			}
+			started = true
+		}
+		sb.WriteByte(ch)
+		switch ch {
+		case '(':
+			depth++
+		case ')':
+			depth--
+			if depth == 0 {
+				return sb.String(), nil
+			}
+		case '\n':
+			if depth == 0 {
+				return sb.String(), nil
 			}
 		}
 	}
-	return vals, r.output
 }
 
+func (s *smtSession) value(term string) string {
+	io.WriteString(s.in, "(get-value ("+term+"))\n")
+	done := make(chan string, 1)
+	go func() {
+		r, _ := s.readExpr()
+		done <- r
+	}()
+	select {
+	case r := <-done:
+		// ((term value))
+		r = strings.TrimSpace(r)
+		if h, args, ok := splitTop(r); ok {
+			items := append([]string{h}, args...)
+			if len(items) == 1 {
+				if _, v, ok := splitTop(items[0]); ok && len(v) >= 1 {
+					return v[len(v)-1]
+				}
+			}
+		}
+		return ""
+	case <-time.After(10 * time.Second):
+		return ""
+	}
+}
+
+func (s *smtSession) close() {
+	s.in.Close()
+	s.cmd.Process.Kill()
+	s.cmd.Wait()
+}
+
+func parseIntTerm(t string) (int64, bool) {
+	t = strings.TrimSpace(t)
+	if strings.HasPrefix(t, "(- ") {
+		n, err := strconv.ParseInt(strings.TrimSuffix(strings.TrimPrefix(t, "(- "), ")"), 10, 64)
+		if err != nil {
+			if strings.TrimSuffix(strings.TrimPrefix(t, "(- "), ")") == "9223372036854775808" {
+				return -9223372036854775808, true
+			}
+			return 0, false
+		}
+		return -n, true
+	}
+	n, err := strconv.ParseInt(t, 10, 64)
+	return n, err == nil
+}
+
+// ---------- concrete values ----------
+
+type cval struct {
+	goExpr string // Go expression building the value
+	smt    string // ground SMT term of the value (for clause evaluation); "" if not representable
+	setup  []string
+}
+
+type replayCtx struct {
+	e     *Engine
+	c     *FnCtx
+	s     *smtSession
+	bigs  map[string]string // ref -> decimal value (entry heap)
+	fail  string
+	nstr  int
+	limit int
+}
+
+func (rc *replayCtx) strValue(term string) (string, bool) {
+	ln, ok := parseIntTerm(rc.s.value(app("slen", term)))
+	if !ok || ln < 0 || ln > 256 {
+		rc.fail = fmt.Sprintf("string of length %d in the model", ln)
+		return "", false
+	}
+	bs := make([]byte, ln)
+	for i := range bs {
+		b, ok := parseIntTerm(rc.s.value(app("sat", term, strconv.Itoa(i))))
+		if !ok {
+			return "", false
+		}
+		bs[i] = byte(b)
+	}
+	return string(bs), true
+}
+
+func goStr(s string) string { return strconv.Quote(s) }
+
+func (rc *replayCtx) valTerm(term string, depth int) (cval, bool) {
+	v := rc.s.value(term)
+	h, args, isApp := splitTop(v)
+	if !isApp {
+		h = v
+	}
+	switch h {
+	case "VNil":
+		return cval{goExpr: "nil", smt: "VNil"}, true
+	case "VBool":
+		return cval{goExpr: args[0], smt: app("VBool", args[0])}, true
+	case "VInt":
+		n, ok := parseIntTerm(args[0])
+		if !ok {
+			return cval{}, false
+		}
+		return cval{goExpr: fmt.Sprintf("int(%d)", n), smt: app("VInt", intLit(n))}, true
+	case "VStr":
+		s, ok := rc.strValue(app("vstr", term))
+		if !ok {
+			return cval{}, false
+		}
+		return cval{goExpr: goStr(s), smt: "STR:" + s}, true
+	case "VNum":
+		s, ok := rc.strValue(app("vnum", term))
+		if !ok {
+			return cval{}, false
+		}
+		return cval{goExpr: "json.Number(" + goStr(s) + ")", smt: "NUM:" + s}, true
+	case "VBig":
+		ref := args[0]
+		bh := rc.c.entry["BIG"]
+		if bh == "" {
+			return cval{}, false
+		}
+		val := rc.s.value(sel(bh, ref))
+		val = strings.TrimSuffix(strings.TrimPrefix(strings.TrimSpace(val), "(- "), ")")
+		neg := strings.HasPrefix(strings.TrimSpace(rc.s.value(sel(bh, ref))), "(-")
+		if neg {
+			val = "-" + val
+		}
+		if _, ok := new(bigIntT).SetString(val, 10); !ok {
+			return cval{}, false
+		}
+		rc.bigs[ref] = val
+		return cval{goExpr: "mustBig(" + goStr(val) + ")", smt: "BIG:" + ref + ":" + val}, true
+	case "VF64":
+		rc.fail = "float64 argument in the model (floats are uninterpreted)"
+		return cval{}, false
+	case "VSlice":
+		if depth > 1 {
+			rc.fail = "nested containers in the model"
+			return cval{}, false
+		}
+		return rc.sliceTerm(app("vslice", term), depth)
+	}
+	rc.fail = "value " + v + " of the model has no Go literal"
+	return cval{}, false
+}
+
+func (rc *replayCtx) sliceTerm(term string, depth int) (cval, bool) {
+	ln, ok1 := parseIntTerm(rc.s.value(app("s-len", term)))
+	arr, ok2 := parseIntTerm(rc.s.value(app("s-arr", term)))
+	if !ok1 || !ok2 || ln < 0 || ln > 16 {
+		rc.fail = "slice too long in the model"
+		return cval{}, false
+	}
+	if arr == 0 {
+		return cval{goExpr: "[]any(nil)"}, true
+	}
+	h := rc.c.entry["HE_any"]
+	if h == "" {
+		return cval{}, false
+	}
+	var elems []string
+	for i := int64(0); i < ln; i++ {
+		et := sel2(h, app("s-arr", term), add(app("s-off", term), strconv.FormatInt(i, 10)))
+		ev, ok := rc.valTerm(et, depth+1)
+		if !ok {
+			return cval{}, false
+		}
+		elems = append(elems, ev.goExpr)
+	}
+	return cval{goExpr: "[]any{" + strings.Join(elems, ", ") + "}"}, true
+}
+
+// argValue builds the concrete value of an SSA parameter of type t held in SMT term `term`.
+func (rc *replayCtx) argValue(term string, t types.Type) (cval, bool) {
+	t = types.Unalias(t)
+	switch tt := t.Underlying().(type) {
+	case *types.Basic:
+		switch {
+		case tt.Info()&types.IsBoolean != 0:
+			v := rc.s.value(term)
+			return cval{goExpr: v, smt: v}, v == "true" || v == "false"
+		case tt.Info()&types.IsInteger != 0:
+			n, ok := parseIntTerm(rc.s.value(term))
+			if !ok {
+				return cval{}, false
+			}
+			return cval{goExpr: fmt.Sprintf("%s(%d)", types.TypeString(t, shortQual), n), smt: intLit(n)}, true
+		case tt.Info()&types.IsString != 0:
+			s, ok := rc.strValue(term)
+			if !ok {
+				return cval{}, false
+			}
+			if _, named := t.(*types.Named); named {
+				return cval{goExpr: types.TypeString(t, shortQual) + "(" + goStr(s) + ")", smt: "STR:" + s}, true
+			}
+			return cval{goExpr: goStr(s), smt: "STR:" + s}, true
+		}
+		rc.fail = "parameter of type " + t.String()
+		return cval{}, false
+	case *types.Interface:
+		return rc.valTerm(term, 0)
+	case *types.Slice:
+		if kindOf(t) == kSlice {
+			return rc.sliceTerm(term, 0)
+		}
+	case *types.Pointer:
+		if kindOf(t) == kBig {
+			ref := rc.s.value(term)
+			if ref == "0" {
+				return cval{goExpr: "(*big.Int)(nil)", smt: "0"}, true
+			}
+			val := strings.TrimSpace(rc.s.value(sel(rc.c.entry["BIG"], term)))
+			neg := strings.HasPrefix(val, "(-")
+			val = strings.TrimSuffix(strings.TrimPrefix(val, "(- "), ")")
+			if neg {
+				val = "-" + val
+			}
+			if _, ok := new(bigIntT).SetString(val, 10); !ok {
+				return cval{}, false
+			}
+			rc.bigs[ref] = val
+			return cval{goExpr: "mustBig(" + goStr(val) + ")", smt: "BIGP:" + ref + ":" + val}, true
+		}
+		// pointer to a struct of the package with scalar fields: built field by field from the model
+		if st, ok := types.Unalias(tt.Elem()).Underlying().(*types.Struct); ok {
+			if n, ok := types.Unalias(tt.Elem()).(*types.Named); ok && n.Obj().Pkg() != nil && rc.e.ownPkg(n.Obj().Pkg().Path()) {
+				ref := rc.s.value(term)
+				if ref == "0" {
+					return cval{goExpr: "(*" + n.Obj().Name() + ")(nil)"}, true
+				}
+				var fields []string
+				for i := 0; i < st.NumFields(); i++ {
+					f := st.Field(i)
+					hname := heapField(tt.Elem(), i)
+					h, ok := rc.c.entry[hname]
+					if !ok {
+						continue // field never read: zero value
+					}
+					fv, ok := rc.argValue(sel(h, term), f.Type())
+					if !ok {
+						if basicInfo(f.Type()) == 0 {
+							rc.fail = ""
+							continue // non-scalar field: zero value
+						}
+						return cval{}, false
+					}
+					fields = append(fields, f.Name()+": "+fv.goExpr)
+				}
+				return cval{goExpr: "&" + n.Obj().Name() + "{" + strings.Join(fields, ", ") + "}"}, true
+			}
+		}
+	}
+	rc.fail = "parameter of type " + t.String() + " cannot be built from the model"
+	return cval{}, false
+}
+
+// ---------- the replay ----------
+
 func (e *Engine) replayObligation(o *Oblig, cfg *solverCfg) replayResult {
-	vals, out := e.modelOf(o)
 	var sb strings.Builder
-	if vals == nil {
-		sb.WriteString("counterexample: the solver answered sat but gave no model on re-query\n" + out)
+	c := o.ctx
+	if c == nil || c.fn == nil || strings.HasPrefix(c.key, "lemma.") {
+		return replayResult{text: "replay: not a function obligation\n"}
+	}
+	sess, status, err := startSession(c.queryText(o, true))
+	if err != nil || status != "sat" {
+		if sess != nil {
+			sess.close()
+		}
+		return replayResult{text: fmt.Sprintf("counterexample: the solver answered sat but gave no model on re-query (%s)\n", status)}
+	}
+	defer sess.close()
+	// prefer a small model: bounded lengths of the container and string parameters
+	var small []string
+	for _, p := range c.fn.Params {
+		t := c.vals[p]
+		switch tt := types.Unalias(p.Type()).Underlying().(type) {
+		case *types.Slice:
+			small = append(small, le(app("s-len", t), "4"))
+		case *types.Basic:
+			if tt.Info()&types.IsString != 0 {
+				small = append(small, le(app("slen", t), "12"))
+			}
+		case *types.Interface:
+			small = append(small, implies(app("(_ is VSlice)", t), le(app("s-len", app("vslice", t)), "3")))
+			small = append(small, implies(app("(_ is VStr)", t), le(app("slen", app("vstr", t)), "8")))
+		}
+	}
+	if len(small) > 0 {
+		io.WriteString(sess.in, "(push 1)\n(assert "+and(small...)+")\n(check-sat)\n")
+		st, _ := sess.readExpr()
+		if strings.TrimSpace(st) != "sat" {
+			io.WriteString(sess.in, "(pop 1)\n(check-sat)\n")
+			st2, _ := sess.readExpr()
+			if strings.TrimSpace(st2) != "sat" {
+				return replayResult{text: "counterexample: no model on re-query\n"}
+			}
+		}
+	}
+	rc := &replayCtx{e: e, c: c, s: sess, bigs: map[string]string{}}
+	// target function and how to call it
+	fn := c.fn
+	call, ok := e.callPlan(fn)
+	if !ok {
+		sb.WriteString("counterexample found by the solver; replay on the real code: not available (" + call + ")\n")
 		return replayResult{text: sb.String()}
 	}
-	sb.WriteString("counterexample (solver model of the parameters):\n")
-	for _, p := range o.ctx.fn.Params {
-		fmt.Fprintf(&sb, "  %s = %s\n", p.Name(), vals[o.ctx.vals[p]])
+	var args []cval
+	sb.WriteString("counterexample (solver model):\n")
+	for _, p := range fn.Params {
+		av, ok := rc.argValue(c.vals[p], p.Type())
+		if !ok {
+			fmt.Fprintf(&sb, "  %s: not representable (%s)\nreplay on the real code: not available\n", p.Name(), rc.fail)
+			return replayResult{text: sb.String()}
+		}
+		fmt.Fprintf(&sb, "  %s = %s\n", p.Name(), av.goExpr)
+		args = append(args, av)
 	}
-	rr := e.replayOnRealCode(o, vals, &sb)
-	return replayResult{text: sb.String(), reproduced: rr}
+	out, err := e.runReplayTest(fn, call, args)
+	sb.WriteString("replay on the real code (go test -overlay, nothing written under /repo):\n")
+	sb.WriteString(indent(out, "  "))
+	if err != nil {
+		fmt.Fprintf(&sb, "  (test run failed: %v)\n", err)
+	}
+	panicked := strings.HasPrefix(out, "REPLAY-PANIC:") || strings.Contains(out, "\nREPLAY-PANIC:")
+	switch {
+	case isSafetyKind(o.Kind):
+		if panicked {
+			sb.WriteString("verdict: reproduced - the real function panics on this input\n")
+			return replayResult{text: sb.String(), reproduced: true}
+		}
+		sb.WriteString("verdict: the real function did not panic on this input (model state not reachable or abstraction)\n")
+		return replayResult{text: sb.String()}
+	case o.Kind == "ensures" && o.Clause != nil:
+		if panicked {
+			sb.WriteString("verdict: reproduced - the real function panics instead of satisfying the postcondition\n")
+			return replayResult{text: sb.String(), reproduced: true}
+		}
+		verdict, rep := e.evalClauseOnObserved(o, fn, args, out)
+		sb.WriteString("verdict: " + verdict + "\n")
+		return replayResult{text: sb.String(), reproduced: rep}
+	}
+	sb.WriteString("verdict: no concrete check for obligations of kind " + o.Kind + "\n")
+	return replayResult{text: sb.String()}
+}
+
+func indent(s, p string) string {
+	var sb strings.Builder
+	for _, l := range strings.Split(strings.TrimRight(s, "\n"), "\n") {
+		sb.WriteString(p + l + "\n")
+	}
+	return sb.String()
+}
+
+func isSafetyKind(k string) bool {
+	switch k {
+	case "index", "slice", "nil-deref", "type-assert", "div-zero", "make", "panic", "nil-map", "shift", "nil-receiver", "nil-interface-call", "box-nil-big", "bit-test":
+		return true
+	}
+	return strings.HasPrefix(k, "call-requires:")
+}
+
+// callPlan: a Go expression template calling fn with arguments a0, a1, ... ("" if not callable).
+func (e *Engine) callPlan(fn *ssa.Function) (string, bool) {
+	if fn.TypeParams().Len() > 0 || len(fn.TypeArgs()) > 0 {
+		return "generic function", false
+	}
+	n := len(fn.Params)
+	argList := func(from int) string {
+		var as []string
+		for i := from; i < n; i++ {
+			as = append(as, fmt.Sprintf("a%d", i))
+		}
+		return strings.Join(as, ", ")
+	}
+	if fn.Parent() != nil {
+		// closure passed to binopTypeSwitch by a func(_, l, r any): reach it through the parent
+		par := fn.Parent()
+		if par.Parent() == nil && par.Signature.Recv() == nil && par.Signature.Params().Len() == 3 && n == 2 {
+			allAny := true
+			for i := 0; i < 3; i++ {
+				if !isEmptyInterface(par.Signature.Params().At(i).Type()) {
+					allAny = false
+				}
+			}
+			if allAny {
+				return par.Name() + "(nil, a0, a1)", true
+			}
+		}
+		return "anonymous function", false
+	}
+	if fn.Signature.Recv() != nil {
+		return "a0." + fn.Name() + "(" + argList(1) + ")", true
+	}
+	if fn.Signature.Variadic() {
+		return fn.Name() + "(" + argList(0) + "...)", true
+	}
+	return fn.Name() + "(" + argList(0) + ")", true
+}
+
+func (e *Engine) runReplayTest(fn *ssa.Function, call string, args []cval) (string, error) {
+	pk := e.fnPkg(fn)
+	dir := getWorkDir()
+	var sb strings.Builder
+	fmt.Fprintf(&sb, "package %s\n\nimport (\n\t\"encoding/json\"\n\t\"fmt\"\n\t\"math/big\"\n\t\"testing\"\n)\n\n", pk.Pkg.Name())
+	sb.WriteString("var _ = json.Number(\"\")\nvar _ = big.NewInt\n\n")
+	sb.WriteString("func mustBig(s string) *big.Int { b, _ := new(big.Int).SetString(s, 10); return b }\n\n")
+	sb.WriteString(`func zzShow(v any) string {
+	switch x := v.(type) {
+	case nil:
+		return "nil"
+	case bool:
+		return fmt.Sprintf("bool:%v", x)
+	case int:
+		return fmt.Sprintf("int:%d", x)
+	case *big.Int:
+		if x == nil {
+			return "bignil"
+		}
+		return "big:" + x.String()
+	case string:
+		return fmt.Sprintf("str:%q", x)
+	case json.Number:
+		return fmt.Sprintf("num:%q", string(x))
+	case float64:
+		return fmt.Sprintf("float:%v", x)
+	case error:
+		return fmt.Sprintf("type:%T", v)
+	}
+	return fmt.Sprintf("type:%T", v)
+}
+
+`)
+	sb.WriteString("func TestZZVerifReplay(t *testing.T) {\n\tdefer func() {\n\t\tif r := recover(); r != nil {\n\t\t\tfmt.Printf(\"REPLAY-PANIC: %v\\n\", r)\n\t\t}\n\t}()\n")
+	for i, a := range args {
+		fmt.Fprintf(&sb, "\ta%d := %s\n\t_ = a%d\n", i, a.goExpr, i)
+	}
+	nres := fn.Signature.Results().Len()
+	if nres == 0 {
+		fmt.Fprintf(&sb, "\t%s\n\tfmt.Println(\"REPLAY-RETURNED\")\n", call)
+	} else {
+		var rs []string
+		for i := 0; i < nres; i++ {
+			rs = append(rs, fmt.Sprintf("r%d", i))
+		}
+		fmt.Fprintf(&sb, "\t%s := %s\n", strings.Join(rs, ", "), call)
+		for i := 0; i < nres; i++ {
+			fmt.Fprintf(&sb, "\tfmt.Printf(\"REPLAY-RESULT %d %%s\\n\", zzShow(any(r%d)))\n", i, i)
+		}
+	}
+	sb.WriteString("}\n")
+	testFile := filepath.Join(dir, "zz_verif_replay_test.go")
+	os.WriteFile(testFile, []byte(sb.String()), 0o644)
+	rel := "."
+	pkgDir := e.repo
+	if pk.Pkg.Path() == cliPath {
+		rel = "./cli"
+		pkgDir = filepath.Join(e.repo, "cli")
+	}
+	ov := map[string]any{"Replace": map[string]string{filepath.Join(pkgDir, "zz_verif_replay_test.go"): testFile}}
+	ovData, _ := json.Marshal(ov)
+	ovFile := filepath.Join(dir, "replay_overlay.json")
+	os.WriteFile(ovFile, ovData, 0o644)
+	ctx, cancel := context.WithTimeout(context.Background(), 120*time.Second)
+	defer cancel()
+	cmd := exec.CommandContext(ctx, "bash", "-c", fmt.Sprintf("cd %s && GOFLAGS=-mod=mod GOPROXY=off go test -overlay %s -v -vet=off -count=1 -timeout 60s -run '^TestZZVerifReplay$' %s 2>&1", e.repo, ovFile, rel))
+	outb, err := cmd.CombinedOutput()
+	var keep []string
+	for _, l := range strings.Split(string(outb), "\n") {
+		if strings.HasPrefix(l, "REPLAY-") || strings.Contains(l, "panic:") || strings.HasPrefix(l, "FAIL") || strings.Contains(l, ".go:") {
+			keep = append(keep, l)
+		}
+	}
+	keep = append(keep, "test source: "+strings.ReplaceAll(strings.TrimSpace(sb.String()[strings.Index(sb.String(), "func TestZZVerifReplay"):]), "\n", "\n    "))
+	if strings.Contains(string(outb), "REPLAY-") {
+		err = nil
+	} else {
+		lines := strings.Split(strings.TrimSpace(string(outb)), "\n")
+		if len(lines) > 12 {
+			lines = lines[:12]
+		}
+		keep = append(keep, "go test output: "+strings.Join(lines, " | "))
+	}
+	return strings.Join(keep, "\n") + "\n", err
+}
+
+// evalClauseOnObserved: substitute the concrete arguments and the observed results into the
+// violated postcondition and let the solver evaluate it (ground query).
+func (e *Engine) evalClauseOnObserved(o *Oblig, fn *ssa.Function, args []cval, out string) (string, bool) {
+	c := e.newCtx(fn, &fnOpts{}, nil)
+	c.entry = heapState{}
+	c.cur = heapState{}
+	c.heapDecl("ALLOC", "Int")
+	c.heapDecl("BIG", "(Array Int Int)")
+	c.assume(le("1000000", c.entry["ALLOC"]))
+	big0 := c.entry["BIG"]
+	nextRef := 2000
+	mk := func(v string) (string, bool) {
+		switch {
+		case v == "":
+			return "", false
+		case strings.HasPrefix(v, "STR:"):
+			return app("VStr", c.strLit(v[4:])), true
+		case strings.HasPrefix(v, "NUM:"):
+			return app("VNum", c.strLit(v[4:])), true
+		case strings.HasPrefix(v, "BIG:"):
+			parts := strings.SplitN(v[4:], ":", 2)
+			n, _ := new(bigIntT).SetString(parts[1], 10)
+			c.assume(eq(sel(big0, parts[0]), bigLit(n)))
+			c.assume(eq(app("pubval", parts[0]), bigLit(n)))
+			c.assume(lt("0", parts[0]))
+			return app("VBig", parts[0]), true
+		}
+		return v, true
+	}
+	env := c.conEnv()
+	env.pkg = c.pkgTypes()
+	env.vars = map[string]sv{}
+	con := c.con
+	if con == nil {
+		return "no contract to evaluate", false
+	}
+	for i, p := range fn.Params {
+		name := p.Name()
+		if i < len(con.Params) {
+			name = con.Params[i]
+		}
+		raw := args[i].smt
+		if strings.HasPrefix(raw, "BIGP:") {
+			parts := strings.SplitN(raw[5:], ":", 2)
+			n, _ := new(bigIntT).SetString(parts[1], 10)
+			c.assume(eq(sel(big0, parts[0]), bigLit(n)))
+			env.vars[name] = sv{parts[0], p.Type()}
+			continue
+		}
+		if isStrT(p.Type()) && strings.HasPrefix(raw, "STR:") {
+			env.vars[name] = sv{c.strLit(raw[4:]), p.Type()}
+			continue
+		}
+		t, ok := mk(raw)
+		if !ok {
+			return "argument " + name + " has no ground SMT term; clause not evaluated on the observed run", false
+		}
+		env.vars[name] = sv{t, p.Type()}
+	}
+	// observed results
+	post := big0
+	names := con.Results
+	res := fn.Signature.Results()
+	for i := 0; i < res.Len(); i++ {
+		var line string
+		for _, l := range strings.Split(out, "\n") {
+			if strings.HasPrefix(l, fmt.Sprintf("REPLAY-RESULT %d ", i)) {
+				line = strings.TrimPrefix(l, fmt.Sprintf("REPLAY-RESULT %d ", i))
+			}
+		}
+		if i >= len(names) || names[i] == "" {
+			continue
+		}
+		rt := res.At(i).Type()
+		var term string
+		switch {
+		case line == "":
+			return "no observed result", false
+		case strings.HasPrefix(line, "int:"):
+			n, _ := strconv.ParseInt(line[4:], 10, 64)
+			if isInterface(rt) {
+				term = app("VInt", intLit(n))
+			} else {
+				term = intLit(n)
+			}
+		case strings.HasPrefix(line, "bool:"):
+			if isInterface(rt) {
+				term = app("VBool", line[5:])
+			} else {
+				term = line[5:]
+			}
+		case line == "nil":
+			term = c.zero(rt)
+		case strings.HasPrefix(line, "big:"):
+			n, _ := new(bigIntT).SetString(line[4:], 10)
+			nextRef++
+			ref := strconv.Itoa(nextRef + 1000000)
+			post = sto(post, ref, bigLit(n))
+			c.assume(eq(app("pubval", ref), bigLit(n)))
+			if isInterface(rt) {
+				term = app("VBig", ref)
+			} else {
+				term = ref
+			}
+		case strings.HasPrefix(line, "str:"):
+			s, err := strconv.Unquote(line[4:])
+			if err != nil {
+				return "unparsable result", false
+			}
+			if isInterface(rt) {
+				term = app("VStr", c.strLit(s))
+			} else {
+				term = c.strLit(s)
+			}
+		case strings.HasPrefix(line, "num:"):
+			s, _ := strconv.Unquote(line[4:])
+			term = app("VNum", c.strLit(s))
+		case strings.HasPrefix(line, "float:"):
+			f := c.fresh("obsf")
+			c.declare(f, "F64")
+			if isInterface(rt) {
+				term = app("VF64", f)
+			} else {
+				term = f
+			}
+		case strings.HasPrefix(line, "type:"):
+			ty := e.typeByGoString(line[5:])
+			if ty == nil {
+				return "observed result of type " + line[5:] + " has no SMT term", false
+			}
+			term = app("VOther", strconv.Itoa(c.sorts.typeID(ty)), "1")
+		default:
+			return "unparsable result", false
+		}
+		env.vars[names[i]] = sv{term, rt}
+	}
+	env.old = c.entry.clone()
+	cur := c.entry.clone()
+	if post != big0 {
+		nv := c.fresh("BIG@post")
+		c.declare(nv, "(Array Int Int)")
+		c.assume(eq(nv, post))
+		cur["BIG"] = nv
+	}
+	env.heap = cur
+	t, err := env.evalBool(o.Clause.E)
+	if err != nil {
+		return "clause not evaluable on concrete values: " + err.Error(), false
+	}
+	if len(c.usedSpecFuncs) > 0 {
+		return "the clause mentions uninterpreted specification functions; it cannot be decided on concrete values", false
+	}
+	c.finalize()
+	ob := &Oblig{Name: "replay-eval", Goal: t, Prefix: len(c.ctx), ctx: c}
+	file := filepath.Join(getWorkDir(), "replay_eval.smt2")
+	os.WriteFile(file, []byte(c.queryText(ob, true)), 0o644)
+	r := runSolver(context.Background(), "z3-new", file, 10000, 1)
+	switch r.status {
+	case "sat":
+		return "reproduced - the observed results of the real function violate the clause: " + o.Clause.Text, true
+	case "unsat":
+		return "the observed results satisfy the clause (the model describes a state or abstraction the real code does not reach)", false
+	}
+	return "ground evaluation of the clause was inconclusive (" + r.status + ")", false
+}
+
+func (e *Engine) typeByGoString(s string) types.Type {
+	for _, nt := range e.named {
+		n := nt.(*types.Named)
+		short := n.Obj().Pkg().Name() + "." + n.Obj().Name()
+		if s == short {
+			return nt
+		}
+		if s == "*"+short {
+			return types.NewPointer(nt)
+		}
+	}
+	return nil
+}
+
+// cmdReplay: re-run the check that produced a replay file (the file names the obligation).
+func cmdReplay(args []string) int {
+	if len(args) < 1 {
+		fmt.Fprintln(os.Stderr, "usage: govc replay <replay-file>")
+		return 2
+	}
+	data, err := os.ReadFile(args[0])
+	if err != nil {
+		fmt.Fprintln(os.Stderr, err)
+		return 2
+	}
+	fmt.Print(string(data))
+	var prop, fnName string
+	for _, l := range strings.Split(string(data), "\n") {
+		if strings.HasPrefix(l, "property: ") {
+			prop = strings.TrimPrefix(l, "property: ")
+		}
+		if strings.HasPrefix(l, "function: ") {
+			fnName = strings.TrimPrefix(l, "function: ")
+		}
+	}
+	if prop == "" {
+		return 0
+	}
+	fmt.Printf("\n--- re-running the check of %s restricted to %s on the current tree ---\n", prop, fnName)
+	a := []string{prop}
+	if fnName != "" {
+		a = append(a, "--only", "^"+regexpQuote(fnName)+"$")
+	}
+	return cmdCheck(a)
+}
+
+func regexpQuote(s string) string {
+	var sb strings.Builder
+	for _, ch := range s {
+		if strings.ContainsRune(`\.+*?()|[]{}^$`, ch) {
+			sb.WriteByte('\\')
+		}
+		sb.WriteRune(ch)
+	}
+	return sb.String()
 }
